@@ -130,6 +130,9 @@ def build(ctx, root, normalise=True):
 
     def visit(fi0, env, kind, count=None, handle=None):
         fi = ctx.N(fi0) if normalise else fi0
+        if normalise:
+            from sa.normalize import call_idioms
+            fi = call_idioms(ctx, fi)        # (spawn options collected in a dict and passed with **)
         key = (fi0.qualname, kind)
         if key in seen:
             raise AnalysisError('%s is spawned / called from two places: the channel model assumes one' % fi0.qualname)
@@ -180,6 +183,11 @@ def build(ctx, root, normalise=True):
                 par = getattr(n, '_parent', None)
                 if isinstance(par, ast.Assign) and pseudo(par.targets[0]):
                     hnd = pseudo(par.targets[0])
+                    # worker = Process(..); workers.append(worker): the handles are kept in the list
+                    apps = [c for c in ast.walk(fi.node) if isinstance(c, ast.Call) and isinstance(c.func, ast.Attribute)
+                            and c.func.attr == 'append' and len(c.args) == 1 and pseudo(c.args[0]) == hnd and pseudo(c.func.value)]
+                    if len(apps) == 1 and cnt is not None:
+                        hnd = pseudo(apps[0].func.value)
                 elif isinstance(par, (ast.ListComp,)) and isinstance(getattr(par, '_parent', None), ast.Assign):
                     hnd = pseudo(par._parent.targets[0])
                 elif isinstance(par, ast.Call) and isinstance(par.func, ast.Attribute) and par.func.attr == 'append':
